@@ -246,10 +246,36 @@ function prependPath(parentPath: string[], err: DecodeError): DecodeError {
   return { ...err, path: [...parentPath, ...err.path] };
 }
 
+// JSON.stringify throws on bigint and on cyclic values, both of which can be the `received` of an
+// error or a Map/Set member named in a path
+function safeStringify(value: unknown): string {
+  const ancestors: unknown[] = [];
+  try {
+    const out = JSON.stringify(value, function (this: unknown, _key, v) {
+      if (typeof v === "bigint") {
+        return `${v}n`;
+      }
+      if (typeof v === "object" && v !== null) {
+        while (ancestors.length > 0 && ancestors[ancestors.length - 1] !== this) {
+          ancestors.pop();
+        }
+        if (ancestors.includes(v)) {
+          return "[Circular]";
+        }
+        ancestors.push(v);
+      }
+      return v;
+    });
+    return out === undefined ? String(value) : out;
+  } catch {
+    return String(value);
+  }
+}
+
 function deduplicateErrors(errors: DecodeError[]): DecodeError[] {
   const seen = new Set<string>();
   return errors.filter((err) => {
-    const key = JSON.stringify(err);
+    const key = safeStringify(err);
     if (seen.has(key)) return false;
     seen.add(key);
     return true;
@@ -1637,12 +1663,12 @@ export class MapRuntype extends BaseRuntype {
     }
     let acc: DecodeError[] = [];
     for (const [k, v] of input) {
-      pushPath(ctx, `key(${JSON.stringify(k)})`);
+      pushPath(ctx, `key(${safeStringify(k)})`);
       if (!this.keyParser.validate(ctx, k)) {
         acc = acc.concat(this.keyParser.reportDecodeError(ctx, k));
       }
       popPath(ctx);
-      pushPath(ctx, `value(${JSON.stringify(k)})`);
+      pushPath(ctx, `value(${safeStringify(k)})`);
       if (!this.valueParser.validate(ctx, v)) {
         acc = acc.concat(this.valueParser.reportDecodeError(ctx, v));
       }
@@ -1699,7 +1725,7 @@ export class SetRuntype extends BaseRuntype {
     }
     let acc: DecodeError[] = [];
     for (const v of input) {
-      pushPath(ctx, `item(${JSON.stringify(v)})`);
+      pushPath(ctx, `item(${safeStringify(v)})`);
       if (!this.itemParser.validate(ctx, v)) {
         acc = acc.concat(this.itemParser.reportDecodeError(ctx, v));
       }
